@@ -52,7 +52,11 @@ BoundAnywhere == UNION {Binds(cl[j]) : j \in 1..Len(cl)}
 \* a name read before the form binds it refers to the enclosing scope only if the form binds it nowhere;
 \* reading the outer variable and then binding the same name is not specified (Python's comprehension
 \* scoping makes the outermost iterable special; a generator function does not)
-ReadOK(rs, i) == \A v \in rs : v \in BoundBefore(i) \/ v \notin BoundAnywhere
+\* ... except in the iterable of a leading iteration clause: as in a Python comprehension, that
+\* expression belongs to the enclosing scope, whatever the form binds later
+ReadOK(rs, i) == \A v \in rs : v \in BoundBefore(i) \/ v \notin BoundAnywhere \/ (i = 1 /\ cl[1][1] = "for")
+\* the leading iterable reads a name that the form itself binds
+LeadingIterableShadowed == Len(cl) >= 1 /\ cl[1][1] = "for" /\ ReadsOf(cl[1]) \cap BoundAnywhere # {}
 OuterReads == {v \in Vars : \E i \in 1..(Len(cl) + 1) :
                   v \in (IF i <= Len(cl) THEN ReadsOf(cl[i]) ELSE FinalReads(fin)) /\ v \notin BoundBefore(i)}
 HasFor == \E i \in 1..Len(cl) : cl[i][1] = "for"
@@ -145,5 +149,5 @@ EagerAllowed == IF cl[1][1] \in {"for", "setv"} THEN {0, 1} ELSE {0}
 
 Export == (Specified /\ Len(cl) >= 1) =>
   PrintT(<<"PROG", ToJson([kind |-> kind, cl |-> cl, fin |-> fin, t |-> Result.t,
-                           after |-> After, outer |-> OuterReads, eager |-> EagerAllowed, usesz |-> fin[1] = "setx"])>>)
+                           after |-> After, outer |-> OuterReads, eager |-> EagerAllowed, shadow1 |-> LeadingIterableShadowed, usesz |-> fin[1] = "setx"])>>)
 =============================================================================
